@@ -831,7 +831,10 @@ class Interp:
         if k == "ext":
             return ext_value(f"{base.data}.{attr}")
         if k == "obj":
-            if attr in base.data:
+            if attr == "__class__":
+                ci0 = base.data.get("__class__")
+                return AV(E, "class", ci0) if isinstance(ci0, ClassInfo) else UNKNOWN
+            if attr in base.data and isinstance(base.data[attr], AV):
                 return base.data[attr]
             ci = base.data.get("__class__")
             if isinstance(ci, ClassInfo):
